@@ -9,7 +9,10 @@ struct Integer; struct Rational; struct Complex;
 struct Number { int kind; Integer *in; Rational *ra; Complex *co; bool is_zero() const; bool is_negative() const;
   /* ghost record of a product built by mulnum (used by the powcomp contract): factors */
   Number *mul_lhs, *mul_rhs;
-  Number *pow(const Integer &e) const;  Number *div(const Number &o) const; };
+  Number *pow(const Integer &e) const;  Number *div(const Number &o) const;
+  /* the else-branch of a dispatcher forwards to other.op(*this) / other.rop(*this): recorded (the class of 'other' is outside this unit) */
+  Number *add(const Integer &o) const; Number *rsub(const Integer &o) const; Number *mul(const Integer &o) const; Number *rdiv(const Integer &o) const; Number *rpow(const Integer &o) const;
+  Number *add(const Rational &o) const; Number *rsub(const Rational &o) const; Number *mul(const Rational &o) const; Number *rdiv(const Rational &o) const; Number *rpow(const Rational &o) const; };
 typedef Number *RCPNumber;
 struct Integer {
   integer_class i; Number *num_;
@@ -19,9 +22,9 @@ struct Integer {
   bool is_zero() const { return i == 0; }
   bool is_negative() const { return i < 0; }
   RCPNumber divint(const Integer &other) const;
-  RCPNumber rdiv(const Number &other) const;
   RCPNumber pow_negint(const Integer &other) const;
 #include "integer_inline.inc"
+#include "integer_dispatch.inc"
 };
 struct Rational {
   rational_class i; Number *num_;
@@ -32,6 +35,7 @@ struct Rational {
   static RCPNumber from_two_ints(const Integer &n, const Integer &d);
   static RCPNumber from_two_ints(long n, long d);
 #include "rational_inline.inc"
+#include "rational_dispatch.inc"
 };
 struct Complex {
   rational_class real_, imaginary_; Number *num_;
@@ -109,7 +113,16 @@ inline Integer *mod_f(const Integer &n, const Number &d)
   return mk_Integer(r);
 }
 inline RCPNumber pow_number(const Complex &x, unsigned long n) { return &opaque_obj; }
+/* recorded forwarding of a dispatcher's else-branch */
+int fwd_op; const Number *fwd_target; const Number *fwd_arg; Number fwd_obj;
+enum { F_NONE = 0, F_ADD, F_RSUB, F_MUL, F_RDIV, F_RPOW };
+#define FWDREC(code) fwd_op = code; fwd_target = this; fwd_arg = o.num_; fwd_obj.kind = NK_NONE; return &fwd_obj;
+/* other.op(*this) with *this an Integer: virtual dispatch reaches the real Rational dispatcher when 'other' is a Rational, otherwise a class outside this unit (recorded) */
+#define FWDI(name, code) inline Number *Number::name(const Integer &o) const { if (kind == NK_RATIONAL) return ra->name(*o.num_); FWDREC(code) }
+#define FWDR(name, code) inline Number *Number::name(const Rational &o) const { FWDREC(code) }
 #include "glue.inc"
+FWDI(add, F_ADD) FWDI(rsub, F_RSUB) FWDI(mul, F_MUL) FWDI(rdiv, F_RDIV) FWDI(rpow, F_RPOW)
+FWDR(add, F_ADD) FWDR(rsub, F_RSUB) FWDR(mul, F_MUL) FWDR(rdiv, F_RDIV) FWDR(rpow, F_RPOW)
 
 extern "C" void mp_pow_ui(long &r, long b, unsigned long e)
 {
@@ -305,6 +318,47 @@ extern "C" void h_complex_from(void)
    to the glue above.  Contract: for ANY two exact numbers read from the archive the loader either returns a normalised
    number (zoo / nan for a zero denominator) or throws a library exception — in particular no GMP precondition
    (non-zero denominator) is violated, which would be a SIGFPE in the real library. */
+/* the virtual dispatchers Integer::/Rational:: add, sub, mul, div, pow (const Number &): exact x exact gives the exact, normalised value;
+   any other kind of 'other' is forwarded to other.add / rsub / mul / rdiv / rpow with this as the argument */
+extern "C" void h_dispatch(void)
+{
+  init(); fwd_op = F_NONE;
+  Number A, B; Integer AI, BI; Rational AR, BR;
+  A.in = &AI; A.ra = &AR; A.co = &s_nocplx; AI.num_ = &A; AR.num_ = &A; B.in = &BI; B.ra = &BR; B.co = &s_nocplx; BI.num_ = &B; BR.num_ = &B;
+  AI.i = nondet_long(); BI.i = nondet_long(); RANGE(AI.i, -3, 3); RANGE(BI.i, -3, 3);
+  mk_canonical_nonint(AR, -3, 3, 3); mk_canonical_nonint(BR, -3, 3, 3);
+  A.kind = nondet_boolean() ? NK_INTEGER : NK_RATIONAL;
+  int kb = nondet_int(); __CPROVER_assume(kb == NK_INTEGER || kb == NK_RATIONAL || kb == NK_COMPLEX); B.kind = kb;      /* NK_COMPLEX stands for every kind handled elsewhere */
+  int op = nondet_int(); __CPROVER_assume(op >= 0 && op <= 4);
+#ifdef DISPATCH_OP
+  __CPROVER_assume(op == DISPATCH_OP);
+#endif
+#ifdef EXACT_ABSTRACT
+  /* one machine word stands for a mathematical integer: keep operands below 2^30 so that Integer::addint/subint/mulint (real text) cannot wrap */
+  __CPROVER_assume(AI.i > -(1L << 30) && AI.i < (1L << 30) && BI.i > -(1L << 30) && BI.i < (1L << 30));
+#endif
+  long an = A.kind == NK_INTEGER ? AI.i : AR.i.num, ad = A.kind == NK_INTEGER ? 1 : AR.i.den, bn = kb == NK_INTEGER ? BI.i : BR.i.num, bd = kb == NK_INTEGER ? 1 : BR.i.den;
+  if (op == 4) { __CPROVER_assume(kb != NK_RATIONAL); __CPROVER_assume(BI.i >= -2 && BI.i <= 2); __CPROVER_assume(!(an == 0 && bn < 0)); }
+  verif_may_throw = false;
+  RCPNumber r;
+  if (A.kind == NK_INTEGER) r = op == 0 ? AI.add(B) : op == 1 ? AI.sub(B) : op == 2 ? AI.mul(B) : op == 3 ? AI.div(B) : AI.pow(B);
+  else r = op == 0 ? AR.add(B) : op == 1 ? AR.sub(B) : op == 2 ? AR.mul(B) : op == 3 ? AR.div(B) : AR.pow(B);
+  if (kb == NK_COMPLEX) {
+    OBL("C05.dispatch.other_kinds_are_forwarded_to_the_matching_reverse_operation", fwd_target == &B && fwd_arg == &A && fwd_op == (op == 0 ? F_ADD : op == 1 ? F_RSUB : op == 2 ? F_MUL : op == 3 ? F_RDIV : F_RPOW));
+  } else if (op == 3 && bn == 0) {
+    OBL("C05.dispatch.division_by_exact_zero_is_zoo_or_nan", r->kind == (an == 0 ? NK_NAN : NK_ZOO));
+  } else {
+    OBL("C05.dispatch.exact_result_is_normalised", fwd_op == F_NONE && normalised(r));
+#ifndef EXACT_ABSTRACT
+    if (op == 0) VALUE("C05.dispatch.add.value", r, an * bd + bn * ad, ad * bd);
+    if (op == 1) VALUE("C05.dispatch.sub.value", r, an * bd - bn * ad, ad * bd);
+    if (op == 2) VALUE("C05.dispatch.mul.value", r, an * bn, ad * bd);
+    if (op == 3) VALUE("C05.dispatch.div.value", r, an * bd, ad * bn);
+    if (op == 4) { long e = bn < 0 ? -bn : bn, pn = ipow(an, e), pd = ipow(ad, e); if (bn >= 0) VALUE("C05.dispatch.pow.value", r, pn, pd); else VALUE("C05.dispatch.pow.value_negative_exponent", r, pd, pn); }
+#endif
+  }
+  REACHABLE("h_dispatch");
+}
 extern "C" void h_powcomp(void)
 {
   init();
